@@ -86,6 +86,11 @@ def _check_impls(ctx, crate, cname, res_v, res_g, res_s):
         ordn = 0
         if tr == VALIDITY and b.name == 'is_valid':
             counts['validity'] += 1
+            # `<Adapter as StateValidityChecker<S>>::is_valid` with S a type parameter: a blanket impl
+            import re as _re
+            m_ = _re.search(r'StateValidityChecker<([A-Za-z_][A-Za-z0-9_]*)>>::is_valid$', b.path)
+            if m_ and '::' not in m_.group(1):
+                counts['generic_validity'] = counts.get('generic_validity', 0) + 1
             leaves = lv.value(fn, lv.ret_terms(fn))
             bad = [l for l in leaves if not (_is_strict(l, STRICT_BOOL) or l == ('const', 'false'))]
             has_extract = any(_is_strict(l, STRICT_BOOL) for l in leaves)
@@ -160,7 +165,8 @@ def run(ctx, tier):
             continue
         c = _check_impls(ctx, crate, cname, res_v, res_g, res_s)
         total[cname] = c
-        if c['validity'] < floor:
+        # one blanket impl (`impl<S: Convert> StateValidityChecker<S> for Adapter`) covers every state type
+        if c['validity'] < floor and not c.get('generic_validity'):
             res_v.violations.append(Violation(
                 'C20', 'C20.validity', cname, 'floor',
                 'only %d StateValidityChecker impls found in %s (floor %d)' % (c['validity'], cname, floor)))
